@@ -3518,9 +3518,12 @@ class DecVar(Vars):
             events = scens
         # events = list(events) if isinstance(events, Iterable) else [events]
         events = [events] if isinstance(events, (str, Real)) else list(events)
+        if isinstance(scens, Scen):
+            indices = events
+        else:
+            indices = list(self.dro_model.series_scen[events])
 
-        for event in events:
-            index = self.dro_model.series_scen[event]
+        for event, index in zip(events, indices):
             if self.rest_adapt and index in self.event_adapt[0]:
                 self.event_adapt[0].remove(index)
             else:
@@ -3531,7 +3534,7 @@ class DecVar(Vars):
             self.event_adapt.pop(0)
             self.rest_adapt = False
 
-        self.event_adapt.append(list(self.dro_model.series_scen[events]))
+        self.event_adapt.append(list(indices))
 
     def affadapt(self, rvars):
 
